@@ -135,3 +135,27 @@ def first_difference(a, b, width=90):
                 return {"at": i, "impl": x[max(0, i - width):i + width], "model": y[max(0, i - width):i + width]}
         return {"at": min(len(x), len(y)), "impl_len": len(x), "model_len": len(y)}
     return {"impl": a[:200], "model": b[:200]}
+
+
+import re as _re
+from fractions import Fraction as _F
+
+_NUMTOK = _re.compile(r"-?[0-9]+(?:\.[0-9]+)?")
+
+
+def compare_outputs(a, b):
+    """'equal' (same bytes), 'float' (same text up to the decimal rendering of numbers that are not
+    exactly representable in f32: every number agrees to 2^-18 relative), or 'different'"""
+    if a == b:
+        return "equal"
+    if not (a.startswith("ok ") and b.startswith("ok ")):
+        return "different"
+    x, y = unhx(a[3:]), unhx(b[3:])
+    if _NUMTOK.sub("#", x) != _NUMTOK.sub("#", y):
+        return "different"
+    for p, q in zip(_NUMTOK.findall(x), _NUMTOK.findall(y)):
+        if p != q:
+            u, v = _F(p), _F(q)
+            if abs(u - v) > _F(1, 2 ** 18) * max(abs(u), abs(v), 1):
+                return "different"
+    return "float"
